@@ -215,6 +215,10 @@ class DI:
 		if len(expect_types) != len(allow_types) or len(expect_types) != len(remain_args):
 			raise ValueError(f'Mismatch invoke arguments. factory: {injector}, expect: {expect_types}, actual: {[type(arg) for arg in remain_args]}')
 
+	def _bound_symbols(self) -> list[type]:
+		"""Returns: バインド済み(ファクトリー登録済み)のシンボルリスト"""
+		return list(self.__injectors.keys())
+
 	def _clone(self) -> Self:
 		"""インスタンスを複製
 
@@ -413,4 +417,9 @@ class LazyDI(DI):
 		"""
 		di = super().combine(other)
 		di.__definitions = {**self.__definitions, **other.__definitions}
+		# XXX マージ対象の未解決の遅延定義は、レシーバー側の解決済みのバインド・インスタンスより優先
+		for symbol in di._bound_symbols():
+			if to_fullyname(symbol) in other.__definitions and not DI.can_resolve(other, symbol):
+				DI.unbind(di, symbol)
+
 		return di
